@@ -128,7 +128,7 @@ def run(ctx):
     c2, k2, gstats = c09.streams(r, n, depth, shares=(2, 4, 3))
     cases += c2
     kinds += k2
-    impl, asts = c09.correspondence(ctx, cases, kinds, ok, want_tokens=False)
+    impl, asts = c09.correspondence(ctx, cases, kinds, ok, want_tokens=False, outcome_only=True)
     ctx.note("generator_branches", dict(sorted(gstats.items(), key=lambda kv: -kv[1])[:30]))
     for s, a in list(zip(cases, impl))[:: max(1, len(cases) // 6)][:6]:
         ctx.sample({"decl": s, "impl": a[:160]})
